@@ -326,7 +326,8 @@ func (e *Exec) evalExpr(x ast.Expr, env *SpecEnv) (v Val, err error) {
 				return termVal(App(SInt, "str.len", t)), nil
 			}
 			return Val{}, fmt.Errorf("len of %s", t.Sort)
-		case "int", "PathIndex", "float64", "string", "jsonString", "PathKey", "jsonNumber", "jsonBool", "bool":
+		case "int", "PathIndex", "float64", "string", "jsonString", "PathKey", "jsonNumber", "jsonBool", "bool",
+			"jsonObject", "jsonArray", "jsonList", "jsonSet", "jsonMultiset", "PathSetKeys", "PathMultisetKeys", "Path", "Diff":
 			t, err := tm(x.Args[0])
 			if err != nil {
 				return Val{}, err
